@@ -8,6 +8,7 @@ Four contracts (init / step / guard / return) + the iteration rule give the prop
 with solve's documented warm-up draw (one get_batch before the loop, used to size the histories).
 """
 from contracts.common import *
+from vf.paths import R
 from contracts.solve_util import *
 from jinns.utils._containers import (DataGeneratorContainer, OptimizationContainer, OptimizationExtraContainer,
                                      LossContainer, StoredObjectContainer)
@@ -236,7 +237,7 @@ def batch_size_check(kind):
         from vf import pyvc
         from vf.pyvc import Executor, Rec
         t0 = time.time()
-        ex = Executor(["/repo/jinns/solver/_solve.py", "/repo/jinns/data/_DataGenerators.py"])
+        ex = Executor([R("/repo/jinns/solver/_solve.py"), R("/repo/jinns/data/_DataGenerators.py")])
         bt, bx, pb = z3.Ints("bt bx pb")
         main = {"ODE": Rec("DataGeneratorODE", dict(temporal_batch_size=bt)),
                 "statio": Rec("CubicMeshPDEStatio", dict(omega_batch_size=bx)),
@@ -273,7 +274,7 @@ def get_batch_ob(sharding, param, obs, obs_cls="DataGeneratorObservations"):
         from vf import pyvc
         from vf.pyvc import Executor, Rec
         t0 = time.time()
-        ex = Executor(["/repo/jinns/solver/_solve.py", "/repo/jinns/data/_DataGenerators.py", "/repo/jinns/data/_Batchs.py"])
+        ex = Executor([R("/repo/jinns/solver/_solve.py"), R("/repo/jinns/data/_DataGenerators.py"), R("/repo/jinns/data/_Batchs.py")])
         fld = {"DataGeneratorODE": ["key", "times", "curr_time_idx", "p_times"],
                "DataGeneratorParameter": ["keys", "param_n_samples", "curr_param_idx"],
                obs_cls: ["key", "indices", "curr_idx", "observed_pinn_in", "observed_values", "observed_eq_params"]}
